@@ -751,8 +751,9 @@ class Ctx:
         self.divzero = divzero          # 'fork' (path outcome) | 'assume'
         self.int_range = int_range
         self.stats = dict(paths=0, decisions=0, queries=0, lin_unsat=0, nra_queries=0, unknown=0,
-                          solver_s=0.0, obligations=0, discharged=0, trivially=0, infeasible=0)
+                          solver_s=0.0, obligations=0, discharged=0, trivially=0, infeasible=0, decide_unknown=0)
         self.assumption_notes = set()
+        self.nice_budget = 12
         self.begin([])
 
     # -- per path state ---------------------------------------------------------
@@ -1015,6 +1016,15 @@ class Ctx:
         self.stats['nra_queries'] += 1
         self.stats['queries'] += 1
         self.stats['solver_s'] += time.time() - t
+        if r == z3.unknown and os.environ.get('SYMNP_DUMP'):
+            d = os.environ['SYMNP_DUMP']
+            os.makedirs(d, exist_ok=True)
+            s3 = z3.Solver()
+            for a in self.pc:
+                s3.add(a)
+            for e in extra:
+                s3.add(e)
+            open(os.path.join(d, 'unk-%d-%d.smt2' % (os.getpid(), self.stats['queries'])), 'w').write(s3.to_smt2())
         m = s.model() if r == z3.sat else None
         return str(r), m
 
@@ -1041,7 +1051,7 @@ class Ctx:
             if r2 == 'unsat':
                 return 'unsat', None
             if r2 == 'unknown':
-                self.stats['unknown'] += 1
+                self.stats['decide_unknown'] += 1
             return ('sat' if r2 == 'sat' else 'unknown'), (m if r == 'sat' else None)
         return ('sat' if r == 'sat' else 'unknown'), m
 
@@ -1124,7 +1134,8 @@ class Ctx:
         elif r == 'sat':
             rec['status'] = 'violated'
             rec['model'] = self.witness(m)
-            if claim is not False:
+            if claim is not False and self.nice_budget > 0:
+                self.nice_budget -= 1
                 nice = self.nice_witness(bnot(claim))
                 if nice is not None:
                     rec['nice'] = nice
